@@ -7,14 +7,52 @@ import (
 	"bufio"
 	"bytes"
 	"fmt"
+	"io"
+	"net"
+	"sort"
 	"strings"
+	"time"
 
 	"github.com/q191201771/lal/pkg/base"
 	"github.com/q191201771/lal/pkg/gb28181"
+	"github.com/q191201771/lal/pkg/hls"
+	"github.com/q191201771/lal/pkg/httpflv"
+	"github.com/q191201771/lal/pkg/logic"
+	"github.com/q191201771/lal/pkg/rtmp"
 	"github.com/q191201771/lal/pkg/rtprtcp"
 	"github.com/q191201771/lal/pkg/rtsp"
 	"github.com/q191201771/lal/pkg/sdp"
 )
+
+// c13Conn: reads return the queued input and then io.EOF; writes are recorded
+type c13Conn struct {
+	in  []byte
+	out []byte
+}
+
+func (c *c13Conn) Read(b []byte) (int, error) {
+	if len(c.in) == 0 {
+		return 0, io.EOF
+	}
+	n := copy(b, c.in)
+	c.in = c.in[n:]
+	return n, nil
+}
+func (c *c13Conn) Write(b []byte) (int, error)        { c.out = append(c.out, b...); return len(b), nil }
+func (c *c13Conn) Close() error                       { return nil }
+func (c *c13Conn) LocalAddr() net.Addr                { return fakeAddr{} }
+func (c *c13Conn) RemoteAddr() net.Addr               { return fakeAddr{} }
+func (c *c13Conn) SetDeadline(t time.Time) error      { return nil }
+func (c *c13Conn) SetReadDeadline(t time.Time) error  { return nil }
+func (c *c13Conn) SetWriteDeadline(t time.Time) error { return nil }
+
+// c13Int: like tokInt, also right for math.MinInt64
+func c13Int(v int64) string {
+	if v < 0 {
+		return fmt.Sprintf("-0x%x", uint64(-v))
+	}
+	return fmt.Sprintf("0x%x", v)
+}
 
 func c13U32s(v []uint32) string {
 	if len(v) == 0 {
@@ -213,4 +251,209 @@ func init() {
 		}
 		return "ok " + c13Join(out)
 	})
+
+	// c13.rtmpc <push> <typeid> <payload>: rtmp.ClientSession.doMsg on one message from the upstream
+	register("c13.rtmpc", func(a []string) string {
+		t := uint8(numTok(a[1]))
+		if t == 18 || t == 20 {
+			return "amf"
+		}
+		conn := &c13Conn{}
+		if err := rtmp.VerifClientDoMsg(boolTok(a[0]), conn, t, bytesTok(a[2])); err != nil {
+			return "err"
+		}
+		return "ok " + tokBytes(conn.out)
+	})
+
+	// c13.rtpmap / c13.fmtp / c13.sdpm <line>: sdp.ParseARtpMap / ParseAFmtPBase / ParseM
+	register("c13.rtpmap", func(a []string) string {
+		r, err := sdp.ParseARtpMap(string(bytesTok(a[0])))
+		if err != nil {
+			return "err"
+		}
+		return fmt.Sprintf("ok %s %s %s %s", c13Int(int64(r.PayloadType)), tokBytes([]byte(r.EncodingName)), c13Int(int64(r.ClockRate)), tokBytes([]byte(r.EncodingParameters)))
+	})
+	register("c13.fmtp", func(a []string) string {
+		r, err := sdp.ParseAFmtPBase(string(bytesTok(a[0])))
+		if err != nil {
+			return "err"
+		}
+		var kv []string
+		for k, v := range r.Parameters {
+			kv = append(kv, tokBytes([]byte(k))+"="+tokBytes([]byte(v)))
+		}
+		sort.Strings(kv)
+		return fmt.Sprintf("ok %s %s", c13Int(int64(r.Format)), c13Join(kv))
+	})
+	register("c13.sdpm", func(a []string) string {
+		r, err := sdp.ParseM(string(bytesTok(a[0])))
+		if err != nil {
+			return "err"
+		}
+		return fmt.Sprintf("ok %s %s", tokBytes([]byte(r.Media)), c13Int(int64(r.PT)))
+	})
+
+	// c13.rtmpurl <text>: base.ParseRtmpUrl("rtmp://h" + text)
+	register("c13.rtmpurl", func(a []string) string {
+		u, err := base.ParseRtmpUrl("rtmp://h" + string(bytesTok(a[0])))
+		if err != nil {
+			return "err"
+		}
+		return fmt.Sprintf("ok %s %s %s %s", tokBytes([]byte(u.Path)), tokBytes([]byte(u.PathWithoutLastItem)), tokBytes([]byte(u.LastItemOfPath)), tokBytes([]byte(u.RawQuery)))
+	})
+	// c13.hlsreq <text>: hls.DefaultPathStrategy.GetRequestInfo(ParseUrl("http://h" + text), "/root")
+	register("c13.hlsreq", func(a []string) string {
+		u, err := base.ParseUrl("http://h"+string(bytesTok(a[0])), -1)
+		if err != nil {
+			return "err"
+		}
+		var dps hls.DefaultPathStrategy
+		ri := dps.GetRequestInfo(u, "/root")
+		return fmt.Sprintf("ok %s %s %s", tokBytes([]byte(ri.StreamName)), tokBytes([]byte(u.LastItemOfPath)), tokBytes([]byte(u.GetFileType())))
+	})
+
+	// ---- unmodelled surfaces: the observable is "alive" -----------------------------------------------------------
+	register("c13x.sdp", func(a []string) string {
+		b := bytesTok(a[0])
+		_, _ = sdp.ParseSdp2RawContext(b)
+		ctx, err := sdp.ParseSdp2LogicContext(b)
+		if err == nil {
+			var ev []string
+			s := rtsp.NewBaseInSessionWithObserver(base.SessionTypeRtspPub, c13Writer{&ev}, c13Observer{&ev})
+			s.InitWithSdp(ctx)
+			s.HandleInterleavedPacket(rtpProbe(96), 0)
+			s.HandleInterleavedPacket(rtpProbe(97), 0)
+			s.HandleInterleavedPacket(rtpProbe(0), 0)
+			s.HandleInterleavedPacket(rtpProbe(8), 0)
+			_ = s.Dispose()
+		}
+		return "alive"
+	})
+	register("c13x.url", func(a []string) string {
+		u := string(bytesTok(a[0]))
+		_, _ = base.ParseUrl(u, -1)
+		_, _ = base.ParseRtmpUrl(u)
+		_, _ = base.ParseRtspUrl(u)
+		if c, err := base.ParseHttpflvUrl(u); err == nil {
+			var dps hls.DefaultPathStrategy
+			_ = dps.GetRequestInfo(c, "/root")
+		}
+		if c, err := base.ParseUrl(u, 80); err == nil {
+			var dps hls.DefaultPathStrategy
+			_ = dps.GetRequestInfo(c, "/root")
+			_ = c.GetFilenameWithoutType()
+		}
+		return "alive"
+	})
+	register("c13x.rtmpclient", func(a []string) string {
+		conn := &c13Conn{in: bytesTok(a[1])}
+		_ = rtmp.VerifClientReadLoop(boolTok(a[0]), conn)
+		return "alive"
+	})
+	register("c13x.flvpull", func(a []string) string {
+		conn := &c13Conn{in: bytesTok(a[0])}
+		_, _, _ = httpflv.VerifPullReadResponse(conn)
+		return "alive"
+	})
+	// c13x.rtsp <ws> <auth> <stream>: a real rtsp.ServerCommandSession (plain or WebSocket) over a fake conn
+	register("c13x.rtsp", func(a []string) string {
+		c13RunRtspServerSession(boolTok(a[0]), intTok(a[1]), bytesTok(a[2]))
+		return "alive"
+	})
+	// c13x.rtspclient <responses>: a real rtsp.PullSession against a loopback origin that sends these bytes
+	register("c13x.rtspclient", func(a []string) string {
+		return c13RunRtspPull(bytesTok(a[0]))
+	})
+	// c13x.api <kind> <body>: logic.unmarshalRequestJsonBody as the /api/ctrl handlers call it
+	register("c13x.api", func(a []string) string {
+		_, _ = logic.VerifUnmarshalRequestJsonBody(a[0], bytesTok(a[1]))
+		return "alive"
+	})
+}
+
+// ---- real RTSP command sessions --------------------------------------------------------------------------------------
+const c13SubSdp = "v=0\r\no=- 0 0 IN IP4 127.0.0.1\r\ns=x\r\nc=IN IP4 127.0.0.1\r\nt=0 0\r\n" +
+	"m=video 0 RTP/AVP 96\r\na=rtpmap:96 H264/90000\r\na=control:streamid=0\r\n" +
+	"m=audio 0 RTP/AVP 97\r\na=rtpmap:97 MPEG4-GENERIC/44100/2\r\na=fmtp:97 profile-level-id=1;mode=AAC-hbr;sizelength=13;indexlength=3;indexdeltalength=3; config=1210\r\na=control:streamid=1\r\n"
+
+type c13RtspObs struct {
+	ev  []string
+	pub *rtsp.PubSession
+	sub *rtsp.SubSession
+}
+
+func (o *c13RtspObs) OnNewRtspPubSession(s *rtsp.PubSession) error {
+	o.pub = s
+	s.SetObserver(c13Observer{&o.ev})
+	return nil
+}
+func (o *c13RtspObs) OnNewRtspSubSessionDescribe(s *rtsp.SubSession) (bool, []byte) {
+	o.sub = s
+	return true, []byte(c13SubSdp)
+}
+func (o *c13RtspObs) OnNewRtspSubSessionPlay(s *rtsp.SubSession) error { return nil }
+
+type c13PullObs struct{ c13Observer }
+
+func c13RunRtspServerSession(ws bool, auth int, in []byte) {
+	obs := &c13RtspObs{}
+	conf := rtsp.ServerAuthConfig{}
+	if auth > 0 {
+		conf = rtsp.ServerAuthConfig{AuthEnable: true, AuthMethod: auth - 1, UserName: "u", PassWord: "p"}
+	}
+	conn := &c13Conn{in: in}
+	sess := rtsp.NewServerCommandSession(obs, conn, conf, ws, "dGhlIHNhbXBsZSBub25jZQ==")
+	_ = sess.RunLoop()
+	if obs.pub != nil {
+		_ = obs.pub.Dispose()
+	}
+	if obs.sub != nil {
+		_ = obs.sub.Dispose()
+	}
+	_ = sess.Dispose()
+}
+
+// a one-shot origin on the loopback interface that answers with canned bytes
+func c13RunRtspPull(resp []byte) string {
+	ln, err := net.Listen("tcp", "127.0.0.1:0")
+	if err != nil {
+		return "no-listen"
+	}
+	defer ln.Close()
+	done := make(chan struct{})
+	go func() {
+		defer close(done)
+		c, err := ln.Accept()
+		if err != nil {
+			return
+		}
+		_, _ = c.Write(resp)
+		buf := make([]byte, 4096)
+		_ = c.SetReadDeadline(time.Now().Add(120 * time.Millisecond))
+		for {
+			if _, err := c.Read(buf); err != nil {
+				break
+			}
+		}
+		_ = c.Close()
+	}()
+	var ev []string
+	s := rtsp.NewPullSession(c13Observer{&ev}, func(o *rtsp.PullSessionOption) {
+		o.PullTimeoutMs = 1500
+		o.OverTcp = true
+	})
+	err = s.Start("rtsp://u:p@" + ln.Addr().String() + "/live/x")
+	if err == nil {
+		select {
+		case <-s.WaitChan():
+		case <-time.After(1500 * time.Millisecond):
+		}
+	}
+	_ = s.Dispose()
+	<-done
+	return "alive"
+}
+
+func rtpProbe(pt byte) []byte {
+	return []byte{0x80, pt, 0, 1, 0, 0, 0, 2, 0, 0, 0, 3, 0x65, 0x01, 0x02, 0x03, 0x04}
 }
